@@ -2,6 +2,6 @@
 
 package sched
 
-func syncOff()     {}
-func syncOn()      {}
+func syncOff()        {}
+func syncOn()         {}
 func RaceBuild() bool { return false }
